@@ -1,6 +1,6 @@
 (* Properties/C11.v — enumeration constants keep their C++ values in C and Fortran. *)
 From Coq Require Import List NArith ZArith Bool Arith String.
-From Shroud Require Import Base.Ustr Model.Splicer Model.Options Model.Lexer Model.Expr Model.Enum Proof.Enum.
+From Shroud Require Import Base.Ustr Model.Splicer Model.Options Model.Lexer Model.Expr Model.Enum Proof.Enum Proof.ExprRT Proof.ExprLex.
 Import ListNotations.
 
 (* For every enumeration whose explicit values are well formed (a canonical decimal literal with optional
@@ -30,6 +30,27 @@ Print Assumptions C11_renaming_preserves_values.
 Theorem C11_text_is_rendering : forall sym e, simple e = true -> print_ident sym e = print_expr (rename sym e).
 Proof. exact print_ident_rename. Qed.
 Print Assumptions C11_text_is_rendering.
+
+(* the rendering can be read back: for every expression in the printer's canonical form (binary operators nested as their
+   precedence and left associativity demand, everything else in explicit parentheses; a signed operand is never the right
+   operand of an operator or of another sign; identifiers are identifiers, constants decimal integers) the printed text
+   lexes to the expression's tokens and the expression parser -- with its own fuel -- returns exactly the expression.
+   Dropping a needed parenthesis in the printer, or giving the operand of a sign more than one primary in the parser,
+   falsifies this. *)
+Theorem C11_printed_expression_reparses : forall e, canon e = true -> etext e = true -> check_expr (print_expr e) = Ok e.
+Proof. exact check_expr_of_print. Qed.
+Print Assumptions C11_printed_expression_reparses.
+
+(* on tokens, whatever follows (a closing bracket, a comma, the end): the parser stops exactly at the end of the expression *)
+Theorem C11_expression_tokens_roundtrip : forall e R, canon e = true -> fol 0 R -> parse_expression (etoks e ++ R) = Ok (e, R).
+Proof. exact parse_expression_roundtrip. Qed.
+Print Assumptions C11_expression_tokens_roundtrip.
+
+Example C11_canonical_expressions_exist :
+  forallb (fun s => match check_expr (cp s) with Ok e => canon e && etext e && ueqb (print_expr e) (cp s) | _ => false end)
+          ["L_TOTAL/(L_UNIT*L_ROW)"; "2*(-LOW)+1"; "100-(W-H)"; "-(W-H)*2"; "f(a,b+1)*(c-2)/3"; "((D_A-D_B)-(D_B-D_A))"; "size(x)+1"]%string = true
+  /\ (match check_expr (cp "10 - -LOW - 1") with Ok e => canon e | _ => true end) = false.
+Proof. vm_compute. split; reflexivity. Qed.
 
 (* on well-formed expressions Fortran and C read every literal alike *)
 Theorem C11_fortran_reads_like_c : forall env e, simple e = true ->
